@@ -185,7 +185,7 @@ func (c15Resource) GetCode(ctx context.Context, s string) ([]byte, error) {
 	}
 	return []byte{}, nil
 }
-func (c15Resource) GetMenu(ctx context.Context, s string) (string, error)     { return s, nil }
+func (c15Resource) GetMenu(ctx context.Context, s string) (string, error) { return s, nil }
 func (c15Resource) FuncFor(ctx context.Context, s string) (resource.EntryFunc, error) {
 	return func(ctx context.Context, sym string, in []byte) (resource.Result, error) {
 		return resource.Result{Content: "v"}, nil
